@@ -36,6 +36,7 @@ def dispatch (line : String) : String :=
   | some (.atom "c08chase" :: args) => Driver.C08.handle args
   | some (.atom "recmark" :: args) => Driver.Recursion.handle args
   | some (.atom "c09" :: args) => Driver.C09.handle args
+  | some (.atom "c09params" :: args) => Driver.C09.handleParams args
   | some (.atom "c12use" :: args) => Driver.C12.handle args
   | some (.atom "c13skip" :: args) => Driver.C13.handle args
   | some (.atom "c18" :: args) => Driver.C18.handle args
